@@ -6,7 +6,7 @@
 # seeded/<id>/meta.json (detected_by_check) and check_output.txt refreshed. The scratch copies are removed at the end.
 set -u
 W=${1:-6}; TIER=${2:-quick}; GLOB=${3:-*}
-VERIF=/verif; SCRATCH=${SCRATCH:-/tmp/par_recheck}
+VERIF=/verif; SCRATCH=${SCRATCH:-/tmp/par_recheck.$$}
 rm -rf "$SCRATCH"; mkdir -p "$SCRATCH"
 ids=$(cd $VERIF/seeded && ls -d $GLOB | sort)
 n=0
